@@ -2,6 +2,7 @@ package basm
 
 import (
 	"fmt"
+	"sort"
 	"strconv"
 
 	"github.com/BondMachineHQ/BondMachine/pkg/bcof"
@@ -278,12 +279,33 @@ func (m *BasmSection) String() string {
 	return result
 }
 
+// lineHeader writes the "label: key:value, ..." line in front of an instruction: its label (if any)
+// and the metadata the source gave to the line
+func lineHeader(line *bmline.BasmLine) string {
+	keys := make([]string, 0)
+	for k := range line.LoopMeta() {
+		if k != "symbol" {
+			keys = append(keys, k)
+		}
+	}
+	if line.GetMeta("symbol") == "" && len(keys) == 0 {
+		return ""
+	}
+	sort.Strings(keys)
+	result := line.GetMeta("symbol") + ":"
+	for i, k := range keys {
+		if i > 0 {
+			result += ","
+		}
+		result += " " + k + ":" + line.GetMeta(k)
+	}
+	return result + "\n"
+}
+
 func (m *BasmSection) writeText() string {
 	result := ""
 	for _, line := range m.sectionBody.Lines {
-		if line.GetMeta("symbol") != "" {
-			result += line.GetMeta("symbol") + ":\n"
-		}
+		result += lineHeader(line)
 		result += line.Operation.GetValue() + " "
 		for _, element := range line.Elements {
 			result += element.GetValue()
@@ -299,9 +321,7 @@ func (m *BasmSection) writeText() string {
 func (m *BasmFragment) writeText() string {
 	result := ""
 	for _, line := range m.fragmentBody.Lines {
-		if line.GetMeta("symbol") != "" {
-			result += line.GetMeta("symbol") + ":\n"
-		}
+		result += lineHeader(line)
 		result += line.Operation.GetValue() + " "
 		for _, element := range line.Elements {
 			result += element.GetValue()
